@@ -255,7 +255,9 @@ func dischargeAll(jobs []job, seed int) {
 					os.MkdirAll(dir, 0o755)
 					file := filepath.Join(dir, sym(j.o.Name)+".smt2")
 					os.WriteFile(file, []byte(j.script), 0o644)
-					r := runOne(solvers[0], file, j.tmo, context.Background())
+					// the budget of a probe is a deterministic resource count (z3 rlimit), not
+					// seconds: which candidates survive must not depend on machine load
+					r := runOne(probeSolver, file, 30, context.Background())
 					j.o.Verdict, j.o.Results, j.o.File = r.Verdict, []SolverResult{r}, file
 					continue
 				}
@@ -335,6 +337,9 @@ func (c *FnCtx) runHoudini(tmo int, seed int) []Term {
 			if j.o.Verdict != "unsat" && owner[i].alive {
 				owner[i].alive = false
 				died = true
+				if os.Getenv("GOVC_HOUDINI_DEBUG") != "" {
+					fmt.Fprintf(os.Stderr, "houdini: %s L%d %s dropped in round %d (%s) %s\n", c.fn.Name(), owner[i].loop.ordinal, owner[i].desc, round, j.o.Verdict, j.o.File)
+				}
 			}
 		}
 		if !died {
